@@ -462,7 +462,7 @@ def run_attr_vector(vec, tid: str, prop: str, variant: int = 0) -> dict:
     rec.do("set_options", [], keep=False, kw={"retain_coefficients": vec["grc"], "retain_names": vec["grn"]}, bad=[], prop="C14")
     new = rec.do("from_attributes", [], rows=[list(r) for r in vec["rows"]], coefs=[[num(c)] for c in vec["coefs"]], shape=[],
                  names=[0, 1], rc=vec["rc"], rn=vec["rn"], via=("function", "classmethod", "clean_attributes")[variant % 3],
-                 dtype="int64")
+                 dtype="int64", names_form=("tuple", "list", "string", "omitted", "poly")[(variant // 9) % 5])
     if new:
         rec.do("rebuild", new, keep=False, via=("attributes", "raw", "todict")[(variant // 3) % 3])
     reset_options()
